@@ -360,6 +360,9 @@ Proof.
   - intros c inv ss _. apply PS_other. reflexivity.
   - intros e. apply PS_other. reflexivity.
   - intros lvs ss bc _. apply PS_other. reflexivity.
+  - intros x tn es. apply PS_other. reflexivity.
+  - intros x. apply PS_other. reflexivity.
+  - intros x e. apply PS_other. reflexivity.
   - exact QS_nil.
   - exact QS_cons.
 Qed.
